@@ -8,9 +8,13 @@
     energy and its emissions do not grow, in step A and in step B, for every k_exp in [0, 1].  The other carriers
     do not see the new component.
 
-    PARTIAL: the load matching mode (the factor (32) is a rational function of production / use) and the statement
-    on RER are decided by the differential run only; with renewable-fuelled cogeneration the RER statement is false
-    (C14_rer_with_renewable_cogeneration_refuted, a known finding). *)
+    RER at k_exp = 0: without cogeneration the renewable primary energy of the carrier does not shrink
+    (C14_ren_never_shrinks_without_cogeneration) and a ratio R / (R + N) with R not lower and N not higher is not
+    lower (C14_ratio); with renewable-fuelled cogeneration the RER statement is false
+    (C14_rer_with_renewable_cogeneration_refuted, a known finding).
+
+    PARTIAL: the load matching mode (the factor (32) is a rational function of production / use) and the assembly
+    of the carrier-level statements into the building totals are decided by the differential run only. *)
 From Cteepbd Require Import Model.Factors Proofs.StepFacts Proofs.ColFacts Proofs.ClosedForm Proofs.RerFacts Proofs.PvFacts.
 Open Scope Qc_scope.
 
@@ -42,7 +46,23 @@ Section Statement.
       /\ nren (we_b (we_of_parts k p')) <= nren (we_b (we_of_parts k p))
       /\ co2 (we_b (we_of_parts k p')) <= co2 (we_b (we_of_parts k p)).
   Proof. intros fs g phi k R R' G P K. exact (pv_monotone_carrier data i dv cm Hn Hd Hdn Hdz Hne fs g phi k R R' G P K). Qed.
+
+  (** RER at k_exp = 0: when no cogeneration is declared for electricity, the renewable primary energy of the carrier
+      does not go down (grid renewable factor at most 1) while the non-renewable one does not go up
+      (C14_nren_co2_never_grow), and a ratio R / (R + N) cannot go down then (C14_ratio) *)
+  Theorem C14_ren_never_shrinks_without_cogeneration : forall (fs : list Factor) (g phi : RNC) (k : Qc),
+    existsb (is_prod_src EL_COGEN) (filter (has_carrier ELECTRICIDAD) data) = false ->
+    regular fs ELECTRICIDAD (cx_srcs x) g (fsrc_reg phi) -> regular fs ELECTRICIDAD (cx_srcs x') g (fsrc_reg phi) ->
+    rnc_nonneg g -> ren g <= 1 ->
+    exists p p', weighted_parts fs x = Ok p /\ weighted_parts fs x' = Ok p'
+      /\ ren (we_a (we_of_parts k p)) <= ren (we_a (we_of_parts k p')).
+  Proof. intros fs g phi k NC R R' G G1. exact (pv_ren_monotone_no_cogen data i dv cm Hn Hd Hdn Hdz Hne NC fs g phi k R R' G G1). Qed.
 End Statement.
+
+Theorem C14_ratio : forall r n r' n' ro no : Qc,
+  0 <= ro -> 0 <= no -> 0 <= r -> 0 <= n' -> r <= r' -> n' <= n -> 0 < ro + r + (no + n) -> 0 < ro + r' + (no + n') ->
+  (ro + r) / (ro + r + (no + n)) <= (ro + r') / (ro + r' + (no + n')).
+Proof. exact ratio_mono. Qed.
 
 (** the three regimes of a time step *)
 Theorem C14_step_both_sources : forall c d, col_ok c -> el_col c -> 0 <= d -> zg (c_pv c) -> zg (c_chp c) ->
@@ -88,4 +108,6 @@ Print Assumptions C14_grid_delivered_never_grows.
 Print Assumptions C14_exported_never_shrinks.
 Print Assumptions C14_nren_co2_never_grow.
 Print Assumptions C14_step_both_sources.
+Print Assumptions C14_ren_never_shrinks_without_cogeneration.
+Print Assumptions C14_ratio.
 Print Assumptions C14_rer_with_renewable_cogeneration_refuted.
